@@ -5,6 +5,7 @@
   proof made for another point.
 -/
 import PCV.Proofs.MLPCProps
+import PCV.Proofs.MLPCExtract
 import PCV.Props.Examples
 
 namespace PCV.C03
@@ -91,5 +92,28 @@ example : MLPC.check (MLPC.wfVK (5 : K) 11 [7, 20]) ⟨2, 19⟩ [8, 13] 72 [] = 
 example : MLPC.check (MLPC.wfVK (5 : K) 11 [7, 20]) ⟨2, 19⟩ [8, 13] 72 [31] = .error .abort := by decide
 example : MLPC.check (MLPC.wfVK (5 : K) 11 [7, 20]) ⟨2, 19⟩ [8, 13] 72 [31, 30, 0] = .error .abort := by
   decide
+
+/-- **Any algebraic forger solves the hardness problem (multilinear PST).**  Let `p` and the `aᵢ` be
+ANY functions of the trapdoor the forger can evaluate "in the exponent" over the published keys
+(multilinear polynomials with known coefficients): commitment `g·p(t)`, proof elements `h·aᵢ(t)`.
+If the verifier accepts the value `v` at `z`, then `E(x) := p(x) − v − Σᵢ (xᵢ − zᵢ)·aᵢ(x)` vanishes at
+the trapdoor, while `E(z) = p(z) − v`: for a false claim `E` is a non-zero polynomial the forger
+knows, and the secret trapdoor is among its roots. -/
+theorem mlpc_algebraic_forgery_reveals_trapdoor (g h : F) (t z : List F) (nv : Nat) (v : F)
+    (p : List F → F) (a : List F → List F)
+    (hz : z.length = t.length) (ha : ∀ x, (a x).length = t.length) (hg : g ≠ 0) (hh : h ≠ 0)
+    (hv : v ≠ p z)
+    (hacc : MLPC.check (MLPC.wfVK g h t) ⟨nv, g * p t⟩ z v ((a t).map (h * ·)) = .ok true) :
+    (p t - v - MLPC.linSum t z (a t) = 0) ∧ (p z - v - MLPC.linSum z z (a z) ≠ 0) := by
+  refine ⟨MLPC.forgery_identity g h t z (a t) nv (p t) v hz (ha t) hg hh hacc, ?_⟩
+  rw [MLPC.linSum_self, sub_zero]
+  exact fun h0 => hv (sub_eq_zero.1 h0).symm
+
+/-- non-vacuity: on the key `g = 5, h = 11, t = (7, 20)` the forger functions
+`p(x) = x₀ + x₁`, proof elements `h·1, h·a₁` with `a₁ = (p(t) − v − (t₀ − z₀))/(t₁ − z₁) = 15` get the
+false value `v = p(z) + 3` accepted -/
+example : MLPC.check (MLPC.wfVK (5 : K) 11 [7, 20]) ⟨2, 5 * (7 + 20)⟩ [8, 13] (8 + 13 + 3)
+    ([1, 15].map ((11 : K) * ·)) = .ok true ∧
+    (15 : K) * (20 - 13) = (7 + 20) - (8 + 13 + 3) - (7 - 8) := by decide
 
 end PCV.C03
